@@ -24,17 +24,25 @@ def ring_ns(tier):
 def ring_raws(n):
     """raw scenario files for capacity n (the largest capacity is generated family by family)"""
     if n <= 4:
-        return [scen.ring_raw(n)]
-    return [scen.ring_raw(n, families=f) for f in (['single', 'positional', 'bulk', 'access', 'ctor', 'faults'],
+        return [scen.ring_raw(n), scen.ring_raw(n, families=['conv', 'faults'])]
+    return [scen.ring_raw(n, families=['conv', 'faults'])] + [scen.ring_raw(n, families=f) for f in (['single', 'positional', 'bulk', 'access', 'ctor', 'faults'],
                                                     ['fill', 'extend', 'faults'], ['drain', 'faults'], ['iter'])]
 
 
-def ring_scenarios(tier, variant='plain', want=None):
+WIDE_FAMILIES = ['single', 'positional', 'bulk', 'access']
+
+
+def wide_ns(tier):
+    """larger capacities, basic operation families only (no faults, no views)"""
+    return [5, 6, 8] if tier == 'quick' else [6, 7, 8]
+
+
+def ring_scenarios(tier, variant='plain', want=None, wide=False):
     """(list of scenario dicts, list of L1 stats)"""
     out, stats = [], []
-    for n in ring_ns(tier):
+    for n in ring_ns(tier) + (wide_ns(tier) if wide else []):
         k = 0
-        for raw, st in ring_raws(n):
+        for raw, st in (ring_raws(n) if n in ring_ns(tier) else [scen.ring_raw(n, families=WIDE_FAMILIES)]):
             stats.append(st)
             for r in scen.load_raw(raw):
                 k += 1
@@ -232,24 +240,38 @@ RING_WANT = {
     'C05': lambda t, r: 'fault_drop' in t,
     'C06': lambda t, r: 'fault_user' in t,
     'C07': lambda t, r: not (t & {'fault_drop', 'fault_user', 'forget'}),
-    'C08': lambda t, r: 'iter' in t,
+    'C08': lambda t, r: 'iter' in t or (r['evs'][0]['op'] == 'into_iter' and not (t & {'fault_drop'})),
     'C09': lambda t, r: 'drain' in t and not (t & {'forget', 'fault_drop'}),
     'C10': lambda t, r: 'forget' in t,
     'C11': lambda t, r: not (t & {'fault_drop', 'fault_user'}),
-    'C12': lambda t, r: 'ctor' in t and not (t & {'fault_drop', 'fault_user'}),
+    'C12': lambda t, r: (t & {'ctor', 'conv'}) and not (t & {'fault_drop', 'fault_user'}),
     'C17': lambda t, r: not (t & {'fault_drop', 'fault_user'}),
     'C20': lambda t, r: not (t & {'fault_drop', 'fault_user', 'forget'}),
 }
 
 
+FAULTY = lambda t: bool(t & {'fault_drop', 'fault_user'})
+
+
 def check_ring(pid, tier, t0):
+    """Two shared units serve all ring-based properties: every TLC-enumerated behaviour without an injected
+    fault, and every behaviour with one. A property's verdict looks at its own clause labels in the unit(s)
+    that can exhibit them; its evidence counts the scenarios that exercise it."""
     want = RING_WANT[pid]
-    scs, stats = ring_scenarios(tier, 'plain', want)
-    u = run_unit('ring-%s-%s' % (pid, tier), scs)
+    fault_prop = pid in ('C05', 'C06')
+    if fault_prop:
+        scs, stats = ring_scenarios(tier, 'plain', lambda t, r: FAULTY(t))
+        u = run_unit('ring-fault-%s' % tier, scs)
+    else:
+        scs, stats = ring_scenarios(tier, 'plain', lambda t, r: not FAULTY(t), wide=True)
+        u = run_unit('ring-nofault-%s' % tier, scs)
+    rel = [s for s in scs if want(set(s['tags']), {'evs': [{'op': s['first_op']}]})]
     cov = l1_cov(stats)
     cov['states_note'] = 'states/transitions = TLC trace-validation runs; l1_* = exhaustive TLC run of spec/Ring.tla (refinement L1 => L0 checked on every transition)'
-    cov['samples'] = sample_of(scs)
-    cov['scenario_tags'] = tag_hist(scs)
+    cov['samples'] = sample_of(rel)
+    cov['scenario_tags'] = tag_hist(rel)
+    cov['scenarios_exercising_this_property'] = len(rel)
+    cov['scenarios_in_unit'] = len(scs)
     return judge(pid, [u], tier, t0, 'model_checking', cov, COMMON_ASSUME)
 
 
@@ -332,10 +354,30 @@ def check_c16(tier, t0):
         'async methods are polled exactly once with a no-op waker'])
 
 
+def check_c13(tier, t0):
+    top = 3 if tier == 'quick' else 4
+    scs, stats = [], []
+    for n in range(0, top + 1):
+        for m in range(0, top + 1):
+            raw, st = scen.obs_raw(n, m)
+            stats.append(st)
+            for k, pair in enumerate(scen.load_raw(raw)):
+                scs.append(scen.obs_build(pair, 'ob%d_%d-%d' % (n, m, k), k))
+    u = run_unit('obs-%s' % tier, scs)
+    cov = {'l1_states': sum(s['states'] for s in stats), 'l1_transitions': sum(s['transitions'] for s in stats),
+           'bounds': {'capacity_pairs': '0..%d x 0..%d' % (top, top), 'alphabet': [0, 1]},
+           'pairs': len(scs), 'samples': sample_of(scs, 2),
+           'states_note': 'l1_* = exhaustive TLC run of spec/Observers.tla (theorem: the segment-wise algorithms equal sequence equality / order / hash feed for every pair of physical states)'}
+    return judge('C13', [u], tier, t0, 'model_checking', cov, COMMON_ASSUME + [
+        'Debug output is compared with the same formatting of the equivalent slice of payloads, under 11 formatter flag combinations (rotated over the pairs)',
+        'hash equality is checked with std DefaultHasher on buffers of equal capacity'])
+
+
 CHECKS = {}
 for _p in RING_WANT:
     CHECKS[_p] = (lambda p: (lambda tier, t0: check_ring(p, tier, t0)))(_p)
 CHECKS['C04'] = check_c04
+CHECKS['C13'] = check_c13
 CHECKS['C14'] = check_c14
 CHECKS['C16'] = check_c16
 
@@ -369,10 +411,12 @@ def setup(argv):
     # 3. scenario generation (TLC over Ring.tla, cached by spec hash)
     import concurrent.futures as cf
     ns = ring_ns('thorough' if '--thorough' in argv else 'quick')
-    jobs = [(n, None) for n in ns if n <= 4] + [(n, ['io']) for n in ([0, 1, 2, 3] if '--thorough' not in argv else [0, 1, 2, 3, 4, 5])]
+    jobs = [(n, None) for n in ns if n <= 4] + [(n, ['conv', 'faults']) for n in ns if n <= 4] + [(n, ['io']) for n in ([0, 1, 2, 3] if '--thorough' not in argv else [0, 1, 2, 3, 4, 5])]
     with cf.ThreadPoolExecutor(max_workers=6) as ex:
         for raw, st in ex.map(lambda j: scen.ring_raw(j[0], families=j[1]), jobs):
             log('Ring.tla N=%d %s: %d states, %d scenarios, refinement holds (%.0fs)' % (st['n'], ','.join(st['families']) if len(st['families']) < 5 else 'all', st['states'], st['scenarios'], st['wall_s']))
+        for raw, st in ex.map(lambda n: scen.ring_raw(n, families=WIDE_FAMILIES), wide_ns('thorough' if '--thorough' in argv else 'quick')):
+            log('Ring.tla N=%d basic families: %d states, %d scenarios (%.0fs)' % (st['n'], st['states'], st['scenarios'], st['wall_s']))
         if '--thorough' in argv:
             for res in ex.map(ring_raws, [n for n in ns if n > 4]):
                 for raw, st in res:
